@@ -49,6 +49,9 @@ let deccap f cap arg = show_res kind hex_of_bytes (f (cap_of cap) (text_of_arg a
 let pushcap f cap arg = push (f (cap_of cap)) arg
 let conv f args = show_res conv_kind hex_of_bytes (f (List.map text_of_arg args))
 let handle = function
+  | ["encd64"; a] -> enc c18_enc64 c18_spec_enc64 a
+  | ["encd32"; a] -> enc c18_enc32 c18_spec_enc32 a
+  | ["encd16"; a] -> enc c18_enc16 c18_spec_enc16 a
   | ["enc64"; a] -> enc c18_enc64 c18_spec_enc64 a
   | ["enc32"; a] -> enc c18_enc32 c18_spec_enc32 a
   | ["enc16"; a] -> enc c18_enc16 c18_spec_enc16 a
